@@ -4,29 +4,45 @@ spec:     spec/Glob.tla       reference GlobMatch / RefMatches / RefFind over co
                               implementation layer (globs_to_re translation, alternation with a single
                               trailing anchor, re.match vs re.fullmatch, find loop); bounded-exhaustive
                               configurations MC_Glob_*.cfg
-          spec/GlobCache.tla  closed model of the files_pattern() cache (SetFiles / Match histories)
+          spec/GlobCache.tla  closed model of the per-paragraph files_pattern() cache: SetFiles / Match /
+                              Find histories incl. the error path (a query that raises, then more queries)
+          spec/GlobMemo.tla   histories of direct globs_to_re(list) calls within one process (patterns may
+                              contain LF / blanks), interleaved with fresh FilesParagraph objects
           spec/TraceGlob.tla  trace validation with the reference operators on concrete code points
 binding:  (a) spec -> code: TLC emits one CASE line per pattern list (expected result for EVERY name up
               to the bound), one DOC line per document (expected paragraph index for every name) and
-              the complete LTS of the cache model; all are replayed into FilesParagraph.create(..)
-              .matches(), paragraphs parsed from copyright text, files = .. re-assignment, and
-              Copyright.find_files_paragraph(), each under several concretizations of the literal
-              symbols (regex metacharacters, non-ASCII, case pairs)
+              the complete LTS of the cache and memo models; all are replayed into FilesParagraph
+              .create(..).matches(), paragraphs parsed from copyright text, files = .. re-assignment,
+              Copyright.find_files_paragraph(), and globs_to_re(list).fullmatch(name) called directly
+              (the only way to a pattern that contains a newline), each under several concretizations
+              of the literal symbols (regex metacharacters, non-ASCII, case pairs).  Histories on ONE
+              paragraph object: a query that raised the format error is followed by further queries
+              (same / other names, matches and find), then Files is set to a legal value and back.
+              Histories in ONE process: lists whose LF- / blank- / un-separated / '|'-joined text is
+              equal are translated in both orders, with FilesParagraph use in between.
           (b) code -> spec: random documents (<= 4 paragraphs x <= 4 patterns x <= 9 symbols, Unicode
-              literals, names with LF / blanks / separators) are driven through the real code and the
-              recorded histories are validated by TLC (TraceGlob); corrupted controls must be rejected.
-negative controls at specification level, re-run in every check: Discipline="prefix" (re.match, the
-defect repaired by ae99ec4) and DotAll=FALSE violate MatchesIffGlob, FindFirst=TRUE violates LastWins,
-StaleCache=TRUE violates SameResult.
+              literals, names with LF / blanks / separators), repeated questions, Files re-assignment and
+              direct globs_to_re calls on joined / split variants of the same list are driven through the
+              real code and the recorded histories are validated by TLC (TraceGlob); corrupted controls
+              must be rejected.
+negative controls at specification level (each makes TLC report the named violation; quick re-runs the
+first, fifth and sixth, thorough all): Discipline="prefix" (re.match, the defect repaired by ae99ec4) and
+DotAll=FALSE violate MatchesIffGlob, FindFirst=TRUE violates LastWins, StaleCache=TRUE and
+KeyBeforeTranslate=TRUE (seeded change C16-seedC) violate SameResult, MemoKeyJoined=TRUE with JoinSep =
+LF / blank / none (seeded change C16-seedD) violates OutFaithful.
 
-Domain decisions (read off copyright.py): the Files field is whitespace-separated, so a pattern that
-is empty or contains whitespace (LF in the model alphabet) cannot be the pattern of a Files paragraph:
-such lists are *unspecified* here -- create() is executed and any ValueError/TypeError or success is
-accepted, globs_to_re(..).fullmatch is compared with the reference as a diagnostic only.  Names are
-arbitrary (LF, blanks, U+2028 ... are in the domain: '*' and '?' must match them).  An illegal escape
-is reported (ValueError) when the paragraph is asked to match, not when Files is assigned.
-find_files_paragraph on a document that contains an ill-formed paragraph: ValueError or the last
-well-formed matching paragraph are both accepted (the statement does not order the two).
+Domain decisions (read off copyright.py and the property's quantifier "patterns over literals, '*', '?',
+escapes and newlines"): the Files field is whitespace-separated, so a pattern that contains whitespace
+cannot be the pattern of a Files paragraph, but it is a legal argument of globs_to_re(list): for such lists
+globs_to_re(ps).fullmatch(name) -- exactly what FilesParagraph.matches computes -- is a VERDICT observable.
+Lists with an EMPTY pattern and the empty list are unspecified (quantifier: 1..n patterns; create() is
+executed and any ValueError/TypeError or success is accepted, globs_to_re is a diagnostic only).  Names
+are arbitrary (LF, blanks, U+2028 ... are in the domain: '*' and '?' must match them).  An illegal escape
+is reported (ValueError) whenever the paragraph is asked to match -- every time, not only the first -- or
+eagerly when Files is assigned.  find_files_paragraph on a document that contains an ill-formed
+paragraph: ValueError or the last well-formed matching paragraph are both accepted (the statement does
+not order the two), but the same question on the unchanged document must get the same answer.
+Private attributes of the library are only ever read inside try/except as diagnostics (spec_drift).
 """
 import concurrent.futures
 import io
@@ -40,14 +56,14 @@ import core
 from lts import LTS, skey, strip
 
 MANIFEST = dict(
-    technique="TLA+ spec (Glob: recursive glob reference + regex-translation/alternation/anchor/match-discipline implementation layer; GlobCache: files_pattern cache machine) model-checked by TLC over all pattern lists and names up to a bound; expected results for every (pattern list, name) and (document, name) emitted by TLC and replayed into FilesParagraph.matches / parsed paragraphs / find_files_paragraph; recorded histories validated by TLC (TraceGlob)",
-    text="TLC enumerates every list of <= 2 patterns of length <= 2 over {a, b, *, ?, backslash, LF} against every name up to length 2 (thorough, with '/' and '.' added: 1 pattern x <= 3 with names <= 4, 2 x <= 2 with names <= 3, and 2 x <= 3 with names <= 3 over the 5 symbols a * ? backslash LF) and checks that the model of globs_to_re + fullmatch agrees with the recursive glob reference, that exactly the ill-formed lists raise, and that the find loop returns the last matching paragraph of every document of <= 3 paragraphs; the re.match discipline (defect fixed by ae99ec4), a non-DOTALL dot, first-match-wins and a stale cache are rejected by TLC in every run. The expected results printed by TLC are replayed on the real code through create(), text parsing with multi-line Files fields, Files re-assignment (cache) and find_files_paragraph under literal concretizations chosen to hit re.escape and flags; random Unicode histories are validated by TLC against the reference.",
-    note="Small-scope: bounds above; concretization of literal symbols is sampled (seeded). Unspecified: patterns that are empty or contain whitespace (not representable in a Files field), empty pattern lists, find on documents with an ill-formed paragraph (ValueError or last well-formed match). Trusted: TLC, the 1:1 renaming of literal code points, the projection (bool of matches(), identity index of the returned paragraph).",
+    technique="TLA+ spec (Glob: recursive glob reference + regex-translation/alternation/anchor/match-discipline implementation layer; GlobCache: per-paragraph files_pattern cache machine incl. its error path; GlobMemo: process-wide histories of direct globs_to_re calls) model-checked by TLC over all pattern lists and names up to a bound; expected results for every (pattern list, name) and (document, name) emitted by TLC and replayed into FilesParagraph.matches / parsed paragraphs / find_files_paragraph; recorded histories validated by TLC (TraceGlob)",
+    text="TLC enumerates every list of <= 2 patterns of length <= 2 over {a, b, *, ?, backslash, LF} against every name up to length 2 (thorough, with '/' and '.' added: 1 pattern x <= 3 with names <= 4, 2 x <= 2 with names <= 3, and 2 x <= 3 with names <= 3 over the 5 symbols a * ? backslash LF) and checks that the model of globs_to_re + fullmatch agrees with the recursive glob reference, that exactly the ill-formed lists raise, and that the find loop returns the last matching paragraph of every document of <= 3 paragraphs; the re.match discipline (defect fixed by ae99ec4), a non-DOTALL dot, first-match-wins and a stale cache are rejected by TLC in every run. The expected results printed by TLC are replayed on the real code through create(), text parsing with multi-line Files fields, Files re-assignment (cache) and find_files_paragraph under literal concretizations chosen to hit re.escape and flags; random Unicode histories are validated by TLC against the reference. One paragraph object is also driven through error-path histories (a query that raised the format error, further queries, Files set to a legal value and back) from the closed cache model, and lists whose joined text coincides (['a\\nb'] vs ['a','b'], blank, no separator, '|') are translated in both orders within the process from the memo model; a cache key stored before translation and a memo keyed by the joined text are rejected by TLC.",
+    note="Small-scope: bounds above; concretization of literal symbols is sampled (seeded). Patterns containing whitespace (LF, blanks) are only reachable through globs_to_re(list) and are judged there (globs_to_re(ps).fullmatch(name)). Unspecified: lists with an empty pattern, the empty list, find on documents with an ill-formed paragraph (ValueError or last well-formed match). Trusted: TLC, the 1:1 renaming of literal code points, the projection (bool of matches(), identity index of the returned paragraph).",
     design="5 (C16)")
 
 W = int(os.environ.get("VERIF_TLC_WORKERS", "8"))
 # debugging aid: run only some binding legs (all by default), e.g. VERIF_C16_LEGS=trace
-LEGS = set(os.environ.get("VERIF_C16_LEGS", "match,doc,cache,memo,trace").split(","))
+LEGS = set(os.environ.get("VERIF_C16_LEGS", "match,doc,cache,memo,find,trace").split(","))
 JOPTS = ["-XX:ParallelGCThreads=2"]      # 16 GC threads cost more than they give on these small heaps
 
 STAR, QM, BS, LF = 42, 63, 92, 10
@@ -387,6 +403,44 @@ def run_cache_path(start, path, cmap, route="prog", bad=()):
     return None
 
 
+def run_find_path(start, path, cmap, route, order, lays):
+    """replay a behaviour of GlobFind on ONE Copyright object: Files fields re-assigned in place between
+    lookups; returns None or a message"""
+    paras = [[cstr(cmap, g) for g in ps] for ps in start]
+    try:
+        c = build_doc(route, paras, order, lays)
+        objs = list(c.all_files_paragraphs())
+    except ValueError:
+        return None                 # an ill-formed list of the pool reported eagerly
+    except Exception as e:
+        return "construction failed: %s: %s" % (type(e).__name__, e)
+    if len(objs) != len(start):
+        return "document shows %d Files paragraphs, built with %d" % (len(objs), len(start))
+    cur = [list(ps) for ps in paras]
+    hist = []
+    for i, e in enumerate(path):
+        if e["op"] == "setfiles":
+            k, ps = e["args"]
+            new = [cstr(cmap, g) for g in ps]
+            try:
+                objs[k - 1].files = new
+            except ValueError:
+                return None         # eager report; afterwards unspecified
+            except Exception as ex:
+                return "step %d: paragraph %d .files = %r raised %s" % (i + 1, k, new, type(ex).__name__)
+            cur[k - 1] = new
+            hist.append("paragraph %d .files = %r" % (k, new))
+            continue
+        name = cstr(cmap, e["args"][0])
+        got = obs_find(c, name)
+        if got != e["res"] and not (e["res"] == -1 and got == e["alt"]):
+            return ("step %d: find_files_paragraph(%r) -> %s, specification says %s (index of the last matching paragraph, "
+                    "0 = None, -1 = format error) on Files paragraphs %r; earlier on this document: %s"
+                    % (i + 1, name, got, e["res"], cur, "; ".join(hist[-4:]) or "-"))
+        hist.append("find_files_paragraph(%r) -> %s" % (name, got))
+    return None
+
+
 MEMO_FIXED = {10, 32, 39, 44, 63, 42, 92, 120, 124}      # code points of the memo pool that are not renamed
 
 
@@ -569,7 +623,19 @@ def rand_script(rng, nops):
         elif r < 0.6:
             ops.append(["matches", k, rand_name(rng, cur[k], nalpha)])
         elif r < 0.87:
-            ops.append(["find", rand_name(rng, cur[rng.randrange(npar)], nalpha)])
+            nm = rand_name(rng, cur[rng.randrange(npar)], nalpha)
+            ops.append(["find", nm])
+            if rng.random() < 0.3:
+                # edit one paragraph in place so that it (also) matches the name, and ask again
+                k = rng.randrange(npar)
+                lit = "".join("\\" + ch if ch in "*?\\" else ch for ch in nm)
+                new = [rand_pattern(rng, alpha, 4, False)] if rng.random() < 0.5 else []
+                new.append(lit if nm and not any(ch.isspace() for ch in nm) and rng.random() < 0.6 else
+                           rng.choice(["*", "*?*" if nm else "*", "?" * len(nm) if nm else "*"]))
+                rng.shuffle(new)
+                cur[k] = new
+                ops.append(["setfiles", k, new])
+                ops.append(["find", nm])
         else:
             new = plist()
             if rng.random() < 0.4:      # same text length as before: a cache keyed on less than the text shows
@@ -723,7 +789,8 @@ def run(ctx):
         + ("" if quick else "; 1 x <= 3 x names <= 4; 2 x <= 2 x names <= 3; 2 x <= 3 x names <= 3 over {a,*,?,\\,LF}")
         + "; documents of <= 3 Files paragraphs",
         "literal symbols are concretized by sampled injective renamings (regex metacharacters, non-ASCII, case pairs)",
-        "unspecified: empty / whitespace-containing patterns and empty pattern lists (not representable in a Files field); "
+        "patterns containing whitespace are judged through globs_to_re(list).fullmatch(name) (not representable in a Files field); "
+        "unspecified: lists with an empty pattern, the empty list; "
         "find_files_paragraph on a document with an ill-formed paragraph may raise ValueError or return the last well-formed match",
         "trusted: TLC, the renaming, the projections bool(matches()) and identity index of the returned paragraph",
     ]
@@ -739,7 +806,7 @@ def run(ctx):
                  dict(name="bnd-c", module="Glob", cfg="MC_Glob_bnd_c.cfg", workers=W)]
     doccfg = "MC_Glob_doc_quick.cfg" if quick else "MC_Glob_doc.cfg"
     jobs += [
-        dict(name="doc", module="Glob", cfg=doccfg, workers=W if not quick else 2),
+        dict(name="doc", module="Glob", cfg=doccfg, workers=W if not quick else 4),
         dict(name="emit-match", module="Glob", tags={"CASE"}, cfg="MC_Glob_emit.cfg"),
         dict(name="emit-doc", module="Glob", tags={"DOC"},
              cfg="MC_Glob_doc_emit.cfg" if quick else cfg_text("MC_Glob_doc_emit.cfg", MaxSyms="5")),
@@ -751,17 +818,29 @@ def run(ctx):
              cfg=cfg_text("MC_GlobCache.cfg", props=["SameResult"], StaleCache="TRUE", Emit='"none"')),
         dict(name="neg-keybeforetranslate", module="GlobCache", expect="SameResult",
              cfg=cfg_text("MC_GlobCache.cfg", props=["SameResult"], KeyBeforeTranslate="TRUE", Emit='"none"')),
-        dict(name="memo", module="GlobMemo", cfg="MC_GlobMemo_quick.cfg" if quick else "MC_GlobMemo.cfg"),
-        dict(name="emit-memo", module="GlobMemo", cfg="MC_GlobMemo_emit.cfg", tags={"EDGE"}),
         dict(name="neg-memojoined-lf", module="GlobMemo", expect="OutFaithful",
-             cfg=cfg_text("MC_GlobMemo_quick.cfg", inv=["OutFaithful"], MemoKeyJoined="TRUE")),
+             cfg=cfg_text("MC_GlobMemo_quick.cfg", inv=["OutFaithful"], MemoKeyJoined="TRUE", Emit='"none"')),
     ]
+    jobs += [
+        dict(name="find-lts", module="GlobFind", cfg="MC_GlobFind_quick.cfg" if quick else "MC_GlobFind.cfg", tags={"EDGE"}),
+        dict(name="neg-lookupmemo", module="GlobFind", expect="FindIsLast",
+             cfg=cfg_text("MC_GlobFind_quick.cfg", LookupMemo="TRUE", Emit='"none"')),
+    ]
+    if quick:       # one run: design check of the small pool and its LTS; fewer negative controls (all in thorough)
+        jobs.append(dict(name="emit-memo", module="GlobMemo", cfg="MC_GlobMemo_quick.cfg", tags={"EDGE"}))
+        jobs = [j for j in jobs if j["name"] not in ("neg-nodotall", "neg-findfirst", "neg-stalecache")]
+    else:
+        jobs += [dict(name="memo", module="GlobMemo", cfg="MC_GlobMemo.cfg"),
+                 dict(name="emit-memo", module="GlobMemo", cfg="MC_GlobMemo_emit.cfg", tags={"EDGE"})]
+    if quick:       # single patterns of 3 symbols (e.g. an escaped star followed by a wildcard) against names <= 2
+        jobs.insert(3, dict(name="emit-match-3", module="Glob", tags={"CASE"},
+                            cfg=cfg_text("MC_Glob_bnd_a.cfg", inv=["EmitCase"], SPEC="ESpec", Emit='"match"', MaxNameLen="2")))
     if not quick:
         jobs += [
             dict(name="neg-memojoined-blank", module="GlobMemo", expect="OutFaithful",
-                 cfg=cfg_text("MC_GlobMemo_quick.cfg", inv=["OutFaithful"], MemoKeyJoined="TRUE", JoinSep="32")),
+                 cfg=cfg_text("MC_GlobMemo_quick.cfg", inv=["OutFaithful"], MemoKeyJoined="TRUE", JoinSep="32", Emit='"none"')),
             dict(name="neg-memojoined-nosep", module="GlobMemo", expect="OutFaithful",
-                 cfg=cfg_text("MC_GlobMemo_quick.cfg", inv=["OutFaithful"], MemoKeyJoined="TRUE", JoinSep="0")),
+                 cfg=cfg_text("MC_GlobMemo_quick.cfg", inv=["OutFaithful"], MemoKeyJoined="TRUE", JoinSep="0", Emit='"none"')),
             dict(name="emit-match-a", module="Glob", tags={"CASE"},
                  cfg=cfg_text("MC_Glob_bnd_a.cfg", inv=["EmitCase"], SPEC="ESpec", Emit='"match"', MaxNameLen="3")),
             dict(name="emit-match-b", module="Glob", tags={"CASE"},
@@ -794,6 +873,8 @@ def run(ctx):
     # ---- 2. spec -> code: every (pattern list, name) with the result TLC expects
     sigma8 = [97, 98, 47, 46, 42, 63, 92, 10]
     emissions = [("emit-match", all_names(sigma8, 2))]
+    if quick:
+        emissions += [("emit-match-3", all_names(sigma8, 2))]
     if not quick:
         emissions += [("emit-match-a", all_names(sigma8, 3)), ("emit-match-b", all_names(sigma8, 3))]
     routes = ["prog", "text", "prog-set", "lines"]
@@ -1057,9 +1138,56 @@ def run(ctx):
     ctx.extra["memo_behaviours_replayed"] = n_memo
     n_beh += n_memo
 
+    # ---- 4c. spec -> code: lookups on ONE document whose Files fields are edited in place (GlobFind):
+    # every lookup, Files of any paragraph re-assigned, the same lookup again; plus random walks
+    f_edges = res["find-lts"].printed.get("EDGE", [])
+    if not f_edges:
+        raise core.MachineryError("no EDGE lines from GlobFind")
+    gf = LTS(f_edges, f_edges[0]["from"])
+    ctx.extra["find_lts"] = {"states": len(gf.states), "edges": len(gf.edges)}
+    for e in gf.edges:
+        ops["doc-" + e["op"]] = ops.get("doc-" + e["op"], 0) + 1
+    n_fh = 0
+
+    def find_run(sk, path, tag):
+        nonlocal n_fh
+        start = gf.states[sk]
+        cmap = conc_map(rng, rng.choice(["canon", "rand", "case"]))
+        route = rng.choice(["prog", "text", "lines", "prog-set"])
+        order = []
+        for k in range(len(start)):
+            if rng.random() < 0.2:
+                order.append("L")
+            order.append(k)
+        lays = [rand_seps(rng, len(ps), route in ("text", "lines")) for ps in start]
+        msg = run_find_path(start, path, cmap, route, order, lays)
+        ctx.case_seen(tag, True)
+        n_fh += 1
+        if msg:
+            report({"kind": "findhist", "start": start, "path": [strip(x) for x in path], "cmap": jmap(cmap),
+                    "route": route, "order": order, "lays": lays}, msg)
+
+    for sk in (sorted(gf.states) if "find" in LEGS else []):
+        outs = gf.out.get(sk, [])
+        for e1 in [x for x in outs if x["op"] == "find"]:
+            for e2 in [x for x in outs if x["op"] == "setfiles" and x["_t"] != sk]:
+                if nviol[0] >= 5:
+                    break
+                e3 = [x for x in gf.out[e2["_t"]] if x["op"] == "find" and x["args"] == e1["args"]][0]
+                extra = gf.walk(rng, e2["_t"], 3)
+                find_run(sk, [e1, e2, e3] + extra, ("findhist", sk, skey(e1["args"]), skey(e2["args"])))
+    keys_f = sorted(gf.states)
+    for w in range((100 if quick else 1000) if "find" in LEGS else 0):
+        if nviol[0] >= 5:
+            break
+        sk = rng.choice(keys_f)
+        find_run(sk, gf.walk(rng, sk, 14), ("findwalk", w))
+    ctx.extra["find_histories_replayed"] = n_fh
+    n_beh += n_fh
+
     t_cache = time.time()
     # ---- 5. code -> spec: recorded histories validated by TLC
-    ntr, nops = (350, 18) if quick else (4000, 30)
+    ntr, nops = (260, 18) if quick else (4000, 30)
     traces = []
     skipped = 0
     for _ in range(ntr if "trace" in LEGS else 0):
@@ -1146,6 +1274,8 @@ def replay(ctx, case):
         return None
     if kind == "memo":
         return run_memo_path(case["path"], unjmap(case["cmap"]))
+    if kind == "findhist":
+        return run_find_path(case["start"], case["path"], unjmap(case["cmap"]), case["route"], case["order"], case["lays"])
     if kind == "doc":
         d = [[tuple(p) for p in ps] for ps in case["doc"]]
         fexp = [(tuple(a), b, c) for a, b, c in case["f"]]
